@@ -174,10 +174,38 @@ func propC01(j *Job) {
 	} else {
 		cases = append(cases, famZ2(modes[:2], 0)...)
 	}
+	cases = append(cases, famWrapPause()...)
 	runCases(j, cases, func(spec *xferSpec) func(m *Sim, x *Exec, r *xferResult) {
 		return deliveryFinal(spec, false, monOpts{})
 	})
+	// a write parked in blocking-write mode while its stream is closed: if it returns success the
+	// message is delivered before end-of-stream (scenario of C14)
+	for _, mode := range modes[:2] {
+		a, b := withBase(mode.A, 1200, 0xFFFFFFFA, 4000), withBase(mode.B, 1200, 0xFFFFFFF0, 4000)
+		a.BlockWrite = true
+		b.RecvBuf = 1500
+		spec := &resetSpec{A: a, B: b, SIDs: []uint16{5}, Sizes: []int{1000, 400, 1000, 300, 200}, Cycles: 2, BackSizes: []int{12}, SlowReader: 300 * time.Millisecond, CloseWhileWriting: 100 * time.Millisecond}
+		j.Explore(fmt.Sprintf("R/%s/close-while-blocked", mode.Name), resetScenario(spec), Budget{K: 0}, nil)
+	}
 	_ = fmt.Sprint
+}
+
+// famWrapPause: the stream sequence numbers wrap while the reader pauses, so that messages from
+// both sides of the wrap wait in the reassembly queue together (no fault needed).
+func famWrapPause() []xferCase {
+	var out []xferCase
+	for _, start := range []uint16{65530, 65535} {
+		a := withBase(epCfg{NoInterleave: true}, 228, 0xFFFFFFF0, 4000)
+		b := withBase(epCfg{Server: true, NoInterleave: true}, 228, 9, 4000)
+		var msgs []msgSpec
+		for i := 0; i < 12; i++ {
+			msgs = append(msgs, msgSpec{Size: 20 + i, PPI: 53})
+		}
+		out = append(out, xferCase{Name: fmt.Sprintf("WP/ssn%d", start), K: 0,
+			Spec: &xferSpec{A: a, B: b, PreOpen: true, SSNStart: start, PauseReader: 700 * time.Millisecond,
+				Streams: []streamSpec{{SID: 1, From: 0, Msgs: msgs}}}})
+	}
+	return out
 }
 
 func propC02(j *Job) {
@@ -209,6 +237,7 @@ func propC02(j *Job) {
 	cases = append(cases, famZ9(modes, 1)...)
 	cases = append(cases, famZS([]int{1000, 4300})...)
 	cases = append(cases, famZ4([]uint32{256 << 10}, []int{2300})...)
+	cases = append(cases, famWrapPause()...)
 	runCases(j, cases, func(spec *xferSpec) func(m *Sim, x *Exec, r *xferResult) { return deliveryFinal(spec, true, monOpts{}) })
 	// reliable streams next to a partially reliable one whose message is lost and abandoned:
 	// whatever else is lost (the FORWARD-TSN, its acknowledgement), the reliable data still gets
